@@ -239,6 +239,20 @@ static int worker(void)
 			if (r > 10) config_case(k, r, r, fixed_seeds[(k + r) % 4], (int)((k + r) % 3), &rng, 0);   /* N1 = r */
 		}
 	}
+	/* large left degrees up to the UINT8 limit of the N1 parameter */
+	{
+		static const uint32_t bigN1[] = { 12, 16, 31, 32, 64, 127, 128, 200, 254, 255 }; static const uint32_t ks2[] = { 1, 2, 5, 20, 100 };
+		for (unsigned i = 0; i < sizeof bigN1 / sizeof bigN1[0]; i++, unit++) {
+			rep_unit(unit);
+			if (!rep_unit_mine(unit)) continue;
+			rng_t rng = rng_make(g_run.seed, 550, i);
+			for (unsigned j = 0; j < sizeof ks2 / sizeof ks2[0]; j++) for (int e = 0; e < 3; e++) {
+				uint32_t N1 = bigN1[i], r = e == 0 ? N1 : e == 1 ? N1 + 1 : 2 * N1 + 3;
+				if (!T && ks2[j] == 100 && N1 > 64) continue;
+				config_case(ks2[j], r, N1, fixed_seeds[(i + j + (unsigned)e) % 4], (int)((i + j) % 3), &rng, 0);
+			}
+		}
+	}
 	if (g_for15) {
 		/* the number of extra entries (rows topped up to weight 2) is about 2(n-k) - N1*k at low rates: put it on and around the
 		 * 8-bit and 16-bit boundaries, where a narrowed counter or flag would go wrong */
